@@ -117,3 +117,34 @@ for _spec in [x for x in dcspec.SPECS if x != 'aliaserr']:     # (aliaserr serve
 from vt import defaults_h  # noqa: E402
 
 ob('fresh-defaults', marks=['schema', 'function', 'forced', 'instance-default'], budget=(60, 200), bounds=defaults_h.BOUNDS)(defaults_h.defaults)
+
+
+# ------------------------------------------------------------------ the mode given at parse time (runtime options)
+def _c05_runtime_mode(V, spec_id):
+    mode = V.pick('mode', ['r', 'w', 'a'])
+    items = sym_items(V, spec_id, limit=limit_for(V, spec_id, 'mode'), strs=False)
+    m = dcspec.reference(spec_id, {'mode': mode}, items)
+    with V.notrace():
+        cls = dcspec.make_class(spec_id, 'Schema', None)
+    r = dcspec.run_impl(cls, items, runtime={'mode': mode})
+    det = lambda: '%s.__from__(%r, options=Options(mode=%r)): model errors=%r keys=%r attrs=%r ; implementation -> %r' % (
+        cls.__name__, items, mode, sorted(m['errors']), m['keys'], m['attrs'], r[:3])
+    V.check(r[0] != 'crash', 'contract:crash', det)
+    if undetermined(m) or m['optional']:
+        V.cover('undetermined')
+        return
+    if m['errors']:
+        V.check(r[0] == 'err' and r[1] <= m['errors'], 'contract:runtime-mode:verdict', det)
+        V.cover('reject')
+        return
+    V.check(r[0] == 'ok', 'contract:runtime-mode:verdict', det)
+    V.check(view_eq(m['keys'], r[1]), 'contract:runtime-mode:key-view', det)
+    V.check(view_eq(m['attrs'], r[2]), 'contract:runtime-mode:attribute-view', det)
+    V.cover('accept')
+
+
+for _spec in ('mode', 'modeout', 'io'):
+    ob('%s/runtime-mode/Schema' % _spec, marks=['accept'], budget=(100, 400), per_path=(15, 30), exhaustive=(True, False),
+       bounds=bounds_text(_spec, 'mode', 'Schema') + '; the class carries no mode: the mode (r / w / a) is given at parse time through '
+              '__from__(data, options=Options(mode=m)); outcome compared with the reference model of that mode (error kinds, key view, attribute view)')(
+        (lambda s: lambda V: _c05_runtime_mode(V, s))(_spec))
